@@ -46,7 +46,8 @@ class ReadBase {
   protected:
     static void ReplaceThis(ReadBase *with, ReadCompressed &thunk);
 
-    ReadBase *Current(ReadCompressed &thunk);
+    // Static: callers use it after ReplaceThis has destroyed them.
+    static ReadBase *Current(ReadCompressed &thunk);
 
     static uint64_t &ReadCount(ReadCompressed &thunk);
 };
